@@ -510,7 +510,23 @@ let check_single (x : qobs) input =
      | Some sql -> let ps = params_of o.(9) in check_sql "parameterized" x input sql (Some (if ps = "" then 0 else List.length (String.split_on_char ',' ps))) kcls
      | None -> None else None) in
   (* C04: the two renderings name the same set of columns (as PostgreSQL reads the identifiers) *)
+  (* when PostgreSQL's model cannot read one of the two texts, the quoted identifiers are read off the texts themselves *)
+  let idents (sql : string) : string list =
+    let out = ref [] and b = Buffer.create 16 and inq = ref false and ins = ref false in
+    String.iter (fun c ->
+      if c = '\'' && not !inq then ins := not !ins
+      else if c = '"' && not !ins then begin
+        if !inq then (out := Buffer.contents b :: !out; Buffer.clear b);
+        inq := not !inq end
+      else if !inq then Buffer.add_char b c) sql;
+    List.sort_uniq compare !out in
   (match cols_inline, cols_param with
+   | _ when (cols_inline = None || cols_param = None) && not (is_bad o.(8)) && not (is_bad o.(9)) && eflag o.(8) = "|0" && eflag o.(9) = "|0" ->
+       (match xtext o.(8), xtext o.(9) with
+        | Some s1, Some s2 ->
+            bump "c04.cols-by-text";
+            if idents s1 <> idents s2 then fail "C04" "columns-differ-between-inline-and-parameterized" input ([("inline", s1); ("parameterized", s2)] @ kcls)
+        | _ -> ())
    | Some a, Some b -> bump "c04.cols"; let a = List.sort_uniq compare a and b = List.sort_uniq compare b in if a <> b then fail "C04" "columns-differ-between-inline-and-parameterized" input ([("inline", String.concat "," a); ("parameterized", String.concat "," b)] @ kcls)
    | _ -> ());
   (* ---- C16 (last clause): a character that cannot start a token, an unterminated quote or regexp make Parse fail.
